@@ -125,11 +125,10 @@ def check_structure(dw, exps, rng):
             elif not e.get('null'):
                 if list(d.iter_children()):
                     return 'entry at %d without children yields children' % e['offset']
-            if not e.get('null'):
-                p = d.get_parent()
-                want = None if e['parent'] is None else ents[e['parent']]['offset']
-                if (p.offset if p is not None else None) != want:
-                    return 'parent of the entry at %d: %r, encoded %r' % (e['offset'], p and p.offset, want)
+            p = d.get_parent()        # null entries included: their parent is the entry whose list they close
+            want = None if e['parent'] is None else ents[e['parent']]['offset']
+            if (p.offset if p is not None else None) != want:
+                return 'parent of the entry at %d: %r, encoded %r' % (e['offset'], p and p.offset, want)
     return None
 
 
@@ -173,8 +172,7 @@ def check_history(secs, exps, le, asz, rng):
             elif op == 'top':
                 dw.get_CU_at(x['cu_offset']).get_top_DIE()
             elif op == 'parent':
-                if not e.get('null'):
-                    dw.get_DIE_from_refaddr(e['offset']).get_parent()
+                dw.get_DIE_from_refaddr(e['offset']).get_parent()
         except Exception as ex:
             return 'history %r: query raised %r' % (log, ex)
     after = snapshot(dw)
